@@ -77,6 +77,33 @@ fn blocks_of(run: &mut Run, height: Option<u64>) -> Vec<(u64, Hx)> {
     out
 }
 
+/// C08: the same signed transaction inscribed again 1-9 blocks later (a fresh arrival: if it is
+/// still waiting its window restarts; if its turn has come it executes; otherwise it is stale)
+fn reinscribe(h: &[Op], rng: &mut Rng) -> Vec<Op> {
+    let mut out: Vec<Op> = h.to_vec();
+    let cands: Vec<usize> = h.iter().enumerate().filter(|(_, o)| matches!(o, Op::Transact { enc: Enc::Hex, .. })).map(|(i, _)| i).collect();
+    let mut inserts: Vec<(usize, Op)> = Vec::new();
+    for (k, i) in cands.iter().enumerate() {
+        if !rng.chance(1, 2) { continue; }
+        let d = 1 + rng.below(9);
+        // position right after the d-th block-closing op that follows
+        let mut seen = 0u64;
+        let mut pos = None;
+        for j in (*i + 1)..h.len() {
+            if matches!(h[j], Op::Finalise { .. } | Op::Mine { .. }) { seen += 1; if seen == d { pos = Some(j + 1); break; } }
+        }
+        let Some(pos) = pos else { continue };
+        let mut copy = h[*i].clone();
+        if let Op::Transact { tail, .. } = &mut copy { tail.insc_id = format!("{}-again{}", tail.insc_id, k); tail.tx_idx = Idx::Auto; }
+        // take the block fields of the block it lands in, if that block already has a first call
+        if let Some(next) = h.get(pos) { if let Some((ts, hash, _)) = next.block_fields() { let hash = hash.clone(); copy.set_block(ts, &hash); } }
+        inserts.push((pos, copy));
+    }
+    inserts.sort_by(|a, b| b.0.cmp(&a.0));
+    for (pos, op) in inserts { out.insert(pos, op); }
+    out
+}
+
 pub fn run(out: &Path, seed: u64, thorough: bool, prop: &str) -> Result<(), Box<dyn std::error::Error>> {
     let mut rng = Rng::new(seed ^ 0xC05E);
     let n = if thorough { 200 } else { 28 };
@@ -98,11 +125,14 @@ pub fn run(out: &Path, seed: u64, thorough: bool, prop: &str) -> Result<(), Box<
         let mut h = gen_history(&mut rng, &p);
         h = with_schedule(&h, p.schedule, &mut rng);
         if prop == "c05" { let k = 3 + rng.below(6) as usize; h = inject_malformed(&mut rng, &h, k).0; }
+        if prop == "c08" { h = reinscribe(&h, &mut rng); }
         let mut run = Run::new();
         let mut accounts: BTreeSet<Address> = BTreeSet::new();
         accounts.insert(indexer);
         let mut calls: Vec<String> = Vec::new();
         let mut problem: Option<String> = None;
+        // reference for the pool clock (no model): the block in which (account, nonce) was last parked
+        let mut last_parked: BTreeMap<(Address, u64), u64> = BTreeMap::new();
         for op in &h {
             if op.is_read() || matches!(op, Op::Reopen) { continue; }
             // the sender whose nonce the call may consume
@@ -182,15 +212,31 @@ pub fn run(out: &Path, seed: u64, thorough: bool, prop: &str) -> Result<(), Box<
             // C05 expectation table of the harness itself (the protocol oracle): must-reject calls
             if let (Some(reason), true) = (run.tracker.must_reject(&resolved), false) { let _ = reason; }
             let (next, waiting, pool, _) = match engine_probe(&mut run) { Ok(x) => x, Err(e) => { problem = Some(e); break; } };
+            match &resolved {
+                Op::Transact { raw_tx, enc: Enc::Hex | Enc::Base64 | Enc::Base64Packed, .. } if outp.status.is_ok() && receipts == 0 => {
+                    if let Decoded::Signed(a, nn) = decode_raw(&raw_tx.0) { if nn > before && nn < before + 10 { last_parked.insert((a, nn), next); } }
+                }
+                Op::Clear | Op::Reorg(_) => { last_parked.clear(); for (a, n, b) in &pool { last_parked.insert((*a, *n), *b); } }
+                _ => {}
+            }
+            for (a, n, b) in &pool {
+                if let Some(want) = last_parked.get(&(*a, *n)) {
+                    if want != b && problem.is_none() {
+                        failures.push(json!({"what": format!("{}: the waiting transaction (0x{}, nonce {}) was inscribed (again) in block {} but the pool counts its window from block {}", prop, hex::encode(a.0), n, want, b),
+                            "case": {"history": run.history()}}));
+                        problem = Some(String::new());
+                    }
+                }
+            }
             if out_term == "OPanic" { problem = Some("panic".into()); out_term = "OPanic".into(); }
             calls.push(format!("(({}), {{| ep_out := {}; ep_next := {}; ep_wait := {}; ep_pool := [{}] |}})",
                 call_term, out_term, next, waiting,
-                pool.iter().map(|(a, n, _)| format!("({}, {})", addr_term(a), n)).collect::<Vec<_>>().join("; ")));
+                pool.iter().map(|(a, n, b)| format!("({}, {}, {})", addr_term(a), n, b)).collect::<Vec<_>>().join("; ")));
             *dist.entry(format!("{}:{}", resolved.kind(), if outp.status.is_ok() { "ok" } else { "rejected" })).or_default() += 1;
             n_calls += 1;
             if run.tracker.desynced { break; }
         }
-        if let Some(pb) = problem { failures.push(json!({"what": format!("{}: {}", prop, pb), "case": {"history": h}})); }
+        if let Some(pb) = problem { if !pb.is_empty() { failures.push(json!({"what": format!("{}: {}", prop, pb), "case": {"history": h}})); } }
         terms.push(format!("{{| ec_id := {}; ec_calls := [\n  {}\n] |}}", i, calls.join(";\n  ")));
         jsonl.push_str(&json!({"id": i, "history": h}).to_string()); jsonl.push('\n');
         if samples.is_empty() { samples.push(json!({"history_ops": h.iter().map(|o| o.kind()).collect::<Vec<_>>(), "first_calls": calls.iter().take(6).collect::<Vec<_>>()})); }
